@@ -2,11 +2,16 @@
    Proved over every history (C05_no_abort, C05_no_panic; Proofs/NoAbort.v): begin-block and end-block processing never abort --
    every bet settlement, every participation payout with its subaccount hooks and every mint step succeeds -- for every accepted
    parameter set and every pair of batch sizes; plus the ordering fact and transaction atomicity.
-   PARTIAL: the progress bound (settled within pending/batch blocks) and the independence of final balances from the batch sizes
-   are decided per run: the work-conserving progress monitor runs on every EndBlock, and sampled histories are re-executed under
+   Progress bound, over every history (C05_bets_settled_within, C05_book_settled_within; Proofs/Progress.v): a market queued for bet
+   settlement with `a` pending bets queued up to and including its own has all its bets settled and has left that queue after
+   a / batch + 1 end blocks; a book queued for payment with `a` unpaid participations queued up to and including its own is marked
+   settled, every participation paid, out of both queues and with nothing left in custody, after a / batch + 1 end blocks -- whatever
+   other transactions and blocks come in between.  Both rest on the work-conserving law of one end-blocker run and on the frame
+   "no transaction touches the queued work of a resolved market" proved for every message handler.
+   PARTIAL: the independence of final balances from the batch sizes is decided per run: sampled histories are re-executed under
    other batch sizes and their final balances compared. *)
 From Coq Require Import ZArith Bool List String.
-From Sge Require Import Lib.Dec Model.Types Model.Mint Model.Chain Proofs.Inversion Proofs.Tables Gen.perms Proofs.SubHist Proofs.NoAbort Witness.C11w.
+From Sge Require Import Lib.Dec Model.Types Model.Mint Model.Chain Proofs.Inversion Proofs.Tables Gen.perms Proofs.SubHist Proofs.NoAbort Proofs.Custody Proofs.Progress Witness.C11w Witness.C05w.
 Import ListNotations.
 
 (* the bet end-blocker runs before the order-book end-blocker (regenerated from app/modules.go) *)
@@ -51,4 +56,65 @@ Example C05_no_abort_witness :
    existsb (fun e => existsb p_settled (bk_parts (ms_book (snd e)))) (c_ms s)) = true /\
   mparams_valid (c_mparams c11w_init) = true /\ (pr_bet_fee (c_prm c11w_init) <=? pr_bet_min (c_prm c11w_init)) = true /\
   forallb (fun a => bget (c_bank c11w_init) a =? 0) [POOL; HOUSEFEE; BETFEE] = true.
+Proof. vm_compute. repeat split; reflexivity. Qed.
+
+(* ---- progress: settled within a bounded number of blocks, over every history ---------------------------------------------------------- *)
+(* bets_measure s m = number of pending bets of the markets queued for bet settlement up to and including m;
+   parts_measure s m = number of unpaid participations of the books queued for payment up to and including m;
+   count_end ops = number of end blocks among ops.  ops2 is ANY continuation of the history (other markets, wagers, deposits, ...). *)
+Theorem C05_bets_settled_within : forall P bk supply vault MP t0 sw sd,
+  pr_bet_fee P <= pr_bet_min P -> 0 <= pr_bet_fee P ->
+  bget bk POOL = 0 -> bget bk HOUSEFEE = 0 -> bget bk BETFEE = 0 -> (forall a, SUBBASE <= a -> 0 <= bget bk a) ->
+  mparams_valid MP = true ->
+  forall ops1 ops2 m, Forall user_op ops1 -> Forall user_op ops2 ->
+  In m (c_mqueue (run (init bk supply P vault MP t0 sw sd) ops1)) -> 0 < pr_bet_batch P ->
+  bets_measure (run (init bk supply P vault MP t0 sw sd) ops1) m / pr_bet_batch P + 1 <= count_end ops2 ->
+  exists x, get_ms (run (init bk supply P vault MP t0 sw sd) (ops1 ++ ops2)) m = Some x /\ ms_pending x = [] /\
+    (forall b, In b (ms_bets x) -> b_status b = BS_SETTLED) /\
+    ~ In m (c_mqueue (run (init bk supply P vault MP t0 sw sd) (ops1 ++ ops2))) /\
+    (bk_status (ms_book x) = BK_RESOLVED \/ bk_status (ms_book x) = BK_SETTLED).
+Proof. exact bets_done_within. Qed.
+Print Assumptions C05_bets_settled_within.
+
+Theorem C05_book_settled_within : forall P bk supply vault MP t0 sw sd,
+  pr_bet_fee P <= pr_bet_min P -> 0 <= pr_bet_fee P ->
+  bget bk POOL = 0 -> bget bk HOUSEFEE = 0 -> bget bk BETFEE = 0 -> (forall a, SUBBASE <= a -> 0 <= bget bk a) ->
+  mparams_valid MP = true ->
+  forall ops1 ops2 m, Forall user_op ops1 -> Forall user_op ops2 ->
+  In m (c_bqueue (run (init bk supply P vault MP t0 sw sd) ops1)) -> 0 < pr_ob_batch P ->
+  parts_measure (run (init bk supply P vault MP t0 sw sd) ops1) m / pr_ob_batch P + 1 <= count_end ops2 ->
+  exists x, get_ms (run (init bk supply P vault MP t0 sw sd) (ops1 ++ ops2)) m = Some x /\ bk_status (ms_book x) = BK_SETTLED /\
+    (forall p, In p (bk_parts (ms_book x)) -> p_settled p = true) /\
+    ms_pending x = [] /\ (forall b, In b (ms_bets x) -> b_status b = BS_SETTLED) /\
+    ~ In m (c_mqueue (run (init bk supply P vault MP t0 sw sd) (ops1 ++ ops2))) /\
+    ~ In m (c_bqueue (run (init bk supply P vault MP t0 sw sd) (ops1 ++ ops2))) /\
+    owed_pool x = 0 /\ owed_hfee x = 0 /\ owed_bfee x = 0.
+Proof. exact book_done_within. Qed.
+Print Assumptions C05_book_settled_within.
+
+(* one run of each end blocker is work-conserving: with budget n it takes exactly n units of the work queued up to and including a
+   market, or moves the market on (the laws the two bounds are built from) *)
+Theorem C05_bet_endblocker_law : forall fuel s n s', bet_endblock fuel s n = Some s' -> qok s -> 0 <= n ->
+  forall m, In m (c_mqueue s) ->
+    (ahead (pend_of s) (c_mqueue s) m < n -> moved s' m) /\
+    (moved s' m \/ (In m (c_mqueue s') /\ ahead (pend_of s') (c_mqueue s') m = ahead (pend_of s) (c_mqueue s) m - n)).
+Proof. intros fuel s n s' H Q Hn. exact (proj2 (proj2 (bet_endblock_ahead fuel s n s' H Q Hn))). Qed.
+Print Assumptions C05_bet_endblocker_law.
+
+(* no transaction (any operation other than the end blocker) touches the pending list, the paid flags or the book status of a resolved
+   market, and the settlement queues only grow at the tail *)
+Theorem C05_tx_frame : forall s o, o <> OEnd -> qframe s (fst (step s o)).
+Proof. exact step_qframe. Qed.
+Print Assumptions C05_tx_frame.
+
+(* non-vacuity: in the witness history (order-book batch size 2), after 25 operations market 0 waits for bet settlement with 3 pending
+   bets, after 27 operations its book waits for payment with 2 unpaid participations, and the rest of the history contains enough end
+   blocks for both theorems; their conclusions are then read off the theorems, not computed *)
+Example C05_progress_witness :
+  forallb user_opb c05w_ops = true /\
+  (let s := run c05w_init (firstn 25 c05w_ops) in
+   c_mqueue s = [0] /\ bets_measure s 0 = 3 /\ (bets_measure s 0 / pr_bet_batch (c_prm c05w_init) + 1 <=? count_end (skipn 25 c05w_ops)) = true) /\
+  (let s := run c05w_init (firstn 27 c05w_ops) in
+   c_bqueue s = [0] /\ parts_measure s 0 = 2 /\ pr_ob_batch (c_prm c05w_init) = 2 /\
+   (parts_measure s 0 / pr_ob_batch (c_prm c05w_init) + 1 <=? count_end (skipn 27 c05w_ops)) = true).
 Proof. vm_compute. repeat split; reflexivity. Qed.
